@@ -419,3 +419,300 @@ theorem keeps_whenMatches (c : RCtx) (y : Bytes) (sel : GoVal) : ∀ es : List E
     · exact keepsM_pure y _
     · exact keeps_whenMatches c y sel es
 end
+
+/-! ## Operations that leave the variables untouched, and invariants of the variables -/
+
+/-- `m` returns with exactly the variables it started with -/
+def SameEnv {α} (m : M α) : Prop := ∀ s, AllRet (fun r : α × RS => r.2.env = s.env) (m s)
+
+theorem sameEnv_bind {α β} {m : M α} {f : α → M β} (hm : SameEnv m) (hf : ∀ a, SameEnv (f a)) : SameEnv (m >>= f) := by
+  intro s
+  refine AllRet.bind (hm s) (fun ⟨a, s1⟩ h1 => ?_)
+  simp only at h1
+  exact (hf a s1).mono (fun r hr => hr.trans h1)
+
+theorem sameEnv_pure {α} (a : α) : SameEnv (pure a : M α) := fun _ => .ret _ rfl
+theorem sameEnv_fail {α} (e : RawErr) : SameEnv (M.fail e : M α) := fun _ => .fail _
+theorem sameEnv_getEnv : SameEnv M.getEnv := fun _ => .ret _ rfl
+theorem sameEnv_getVar (x : Bytes) : SameEnv (M.getVar x) := fun _ => .ret _ rfl
+theorem sameEnv_ofRes {α} (r : Res Cause α) : SameEnv (M.ofRes r) := by
+  intro s
+  cases r with
+  | ok a => exact .ret _ rfl
+  | err c => exact .fail _
+  | panic w => exact .panic _
+  | unmodelled w => exact .unmodelled _
+theorem sameEnv_mapFail {α} {m : M α} (g : RawErr → RawErr) (hm : SameEnv m) : SameEnv (M.mapFail g m) :=
+  fun s => AllRet.mapFail g (hm s)
+theorem sameEnv_wrapFailAt {α} (path : Bytes) (loc : Loc) {m : M α} (hm : SameEnv m) :
+    SameEnv (wrapFailAt path loc m) := sameEnv_mapFail _ hm
+theorem sameEnv_flush : SameEnv flushM := by
+  intro s
+  unfold flushM
+  split
+  · exact .ret _ rfl
+  · exact .call _ _ (fun r => by cases r <;> first | exact .ret _ rfl | exact .fail _)
+theorem sameEnv_write (b : Bytes) : SameEnv (writeM b) := by
+  intro s
+  unfold writeM
+  simp only
+  split
+  · exact .ret _ rfl
+  · exact .call _ _ (fun r => by cases r <;> first | exact .ret _ rfl | exact .fail _)
+theorem sameEnv_tablerowBefore (cols i : Nat) : SameEnv (tablerowBefore cols i) := by
+  unfold tablerowBefore
+  simp only [bind_pure_comp]
+  split
+  · exact sameEnv_bind (sameEnv_write _) (fun _ => sameEnv_write _)
+  · exact sameEnv_bind (sameEnv_pure _) (fun _ => sameEnv_write _)
+theorem sameEnv_tablerowAfter (cols i l : Nat) : SameEnv (tablerowAfter cols i l) := by
+  unfold tablerowAfter
+  refine sameEnv_bind (sameEnv_write _) (fun _ => ?_)
+  split
+  · exact sameEnv_write _
+  · exact sameEnv_pure _
+theorem sameEnv_intModifier (P : Prims) (e : Option Expr) (loc : Loc) : SameEnv (intModifier P e loc) := by
+  unfold intModifier
+  cases e with
+  | none => exact sameEnv_pure _
+  | some ex =>
+    refine sameEnv_bind sameEnv_getEnv (fun env => sameEnv_bind (sameEnv_ofRes _) (fun v => ?_))
+    split
+    · exact sameEnv_pure _
+    · exact sameEnv_fail _
+theorem sameEnv_tablerowCols (P : Prims) (tr : Bool) (cols : Option Expr) (loc : Loc) :
+    SameEnv (tablerowCols P tr cols loc) := by
+  unfold tablerowCols
+  split
+  · refine sameEnv_bind (sameEnv_intModifier _ _ _) (fun cv => ?_)
+    cases cv <;> exact sameEnv_pure _
+  · exact sameEnv_pure _
+
+/-- `m` preserves the property `I` of the variables -/
+def PresM {α} (I : Env → Prop) (m : M α) : Prop := ∀ s, I s.env → AllRet (fun r : α × RS => I r.2.env) (m s)
+
+theorem presM_of_sameEnv {α} {I : Env → Prop} {m : M α} (h : SameEnv m) : PresM I m :=
+  fun s hs => (h s).mono (fun r hr => by rw [hr]; exact hs)
+
+theorem presM_bind {α β} {I : Env → Prop} {m : M α} {f : α → M β} (hm : PresM I m) (hf : ∀ a, PresM I (f a)) :
+    PresM I (m >>= f) := by
+  intro s hs
+  exact AllRet.bind (hm s hs) (fun ⟨a, s1⟩ h1 => hf a s1 h1)
+
+theorem presM_pure {α} (I : Env → Prop) (a : α) : PresM I (pure a : M α) := fun _ hs => .ret _ hs
+
+/-- a property of the variables that does not look at the loop variable or `forloop` is an
+    invariant of the iterations as soon as the body preserves it -/
+theorem presM_iterate (I : Env → Prop) (var : Bytes) (cols : Option Nat) (body : M Status) (n : Nat)
+    (hI : ∀ env y w, (y = var ∨ y = nmForloop) → (I (env.set y w) ↔ I env)) (hb : PresM I body) :
+    ∀ xs i cyc, PresM I (iterateM var cols body n xs i cyc) := by
+  intro xs
+  induction xs with
+  | nil => intro i cyc; exact presM_pure I _
+  | cons x xs ih =>
+    intro i cyc
+    unfold iterateM
+    have hset : ∀ y w, (y = var ∨ y = nmForloop) → PresM I (M.setVar y w) :=
+      fun y w hy s hs => .ret _ ((hI s.env y w hy).mpr hs)
+    refine presM_bind (hset _ _ (.inl rfl)) (fun _ => presM_bind (hset _ _ (.inr rfl)) (fun _ => ?_))
+    refine presM_bind ?_ (fun _ => presM_bind hb (fun st => presM_bind ?_ (fun _ =>
+      presM_bind (presM_of_sameEnv (sameEnv_getVar _)) (fun cur => ?_))))
+    · cases cols with
+      | none => exact presM_pure I _
+      | some c => exact presM_of_sameEnv (sameEnv_tablerowBefore c i)
+    · cases cols with
+      | none => exact presM_pure I _
+      | some c => exact presM_of_sameEnv (sameEnv_tablerowAfter c i n)
+    · cases st with
+      | brk e => exact presM_pure I _
+      | done => exact ih _ _
+      | cont e => exact ih _ _
+
+theorem presM_loopIterate (I : Env → Prop) (P : Prims) (loc : Loc) (tr : Bool) (var : Bytes) (colsE : Option Expr)
+    (bodyM : M Status) (hI : ∀ env y w, (y = var ∨ y = nmForloop) → (I (env.set y w) ↔ I env)) (hb : PresM I bodyM)
+    (items : List GoVal) : PresM I (loopIterate P loc tr var colsE bodyM items) := by
+  unfold loopIterate
+  have hset : ∀ y w, (y = var ∨ y = nmForloop) → PresM I (M.setVar y w) :=
+    fun y w hy s hs => .ret _ ((hI s.env y w hy).mpr hs)
+  refine presM_bind (presM_of_sameEnv (sameEnv_tablerowCols _ _ _ _)) (fun cols =>
+    presM_bind (presM_of_sameEnv (sameEnv_getVar _)) (fun pl => presM_bind (presM_of_sameEnv (sameEnv_getVar _)) (fun pv =>
+    presM_bind (presM_iterate I var cols bodyM _ hI hb _ _ _) (fun st => presM_bind ?_ (fun _ => presM_pure I _)))))
+  unfold restoreLoopVars
+  exact presM_bind (hset _ _ (.inr rfl)) (fun _ => hset _ _ (.inl rfl))
+
+/-- the iterations consume `break` and `continue` (same statement as `iterate_consumes` of C11) -/
+theorem iterateM_done (var : Bytes) (cols : Option Nat) (body : M Status) (n : Nat) :
+    ∀ xs i cyc s, AllRet (fun r : Status × RS => r.1 = .done) (iterateM var cols body n xs i cyc s) := by
+  intro xs
+  induction xs with
+  | nil => intro i cyc s; exact .ret _ rfl
+  | cons x xs ih =>
+    intro i cyc s
+    unfold iterateM
+    simp only [bind, M.bind]
+    refine AllRet.bind (AllRet.trivial _) (fun _ _ => AllRet.bind (AllRet.trivial _) (fun _ _ =>
+      AllRet.bind (AllRet.trivial _) (fun _ _ => AllRet.bind (AllRet.trivial _) (fun r _ =>
+      AllRet.bind (AllRet.trivial _) (fun _ _ => AllRet.bind (AllRet.trivial _) (fun _ _ => ?_))))))
+    obtain ⟨st, s'⟩ := r
+    cases st with
+    | brk e => exact .ret _ rfl
+    | done => exact ih _ _ _
+    | cont e => exact ih _ _ _
+
+/-- the status of a loop execution is always `done` -/
+theorem loopIterate_done (P : Prims) (loc : Loc) (tr : Bool) (var : Bytes) (colsE : Option Expr) (bodyM : M Status)
+    (items : List GoVal) (s : RS) :
+    AllRet (fun r : Status × RS => r.1 = .done) (loopIterate P loc tr var colsE bodyM items s) := by
+  unfold loopIterate
+  simp only [bind, M.bind]
+  refine AllRet.bind (AllRet.trivial _) (fun _ _ => AllRet.bind (AllRet.trivial _) (fun _ _ =>
+    AllRet.bind (AllRet.trivial _) (fun _ _ => ?_)))
+  refine AllRet.bind (iterateM_done _ _ _ _ _ _ _ _) (fun ⟨st, s2⟩ h => ?_)
+  simp only at h
+  subst h
+  exact AllRet.bind (AllRet.trivial _) (fun _ _ => .ret _ rfl)
+
+theorem AllRet.and {α} {Q R : α → Prop} {p : Prog α} (h1 : AllRet Q p) (h2 : AllRet R p) :
+    AllRet (fun a => Q a ∧ R a) p := by
+  induction h1 with
+  | ret a ha => cases h2 with | ret _ hb => exact .ret a ⟨ha, hb⟩
+  | fail e => exact .fail e
+  | panic w => exact .panic w
+  | unmodelled w => exact .unmodelled w
+  | call b k _ ih => cases h2 with | call _ _ hk => exact .call _ _ (fun r => ih r (hk r))
+
+/-! ## Postconditions on the variables that may depend on how a fragment ended -/
+
+/-- how a fragment ended: normally, with `break`, with `continue` -/
+inductive SK where
+  | done | brk | cont
+  deriving DecidableEq, Repr
+
+def Status.kind : Status → SK
+  | .done => .done
+  | .brk _ => .brk
+  | .cont _ => .cont
+
+theorem Status.kind_wrap (path : Bytes) (loc : Loc) (st : Status) : (st.wrap path loc).kind = st.kind := by
+  cases st <;> rfl
+
+/-- a condition on the variables a fragment ends with, per kind of ending -/
+abbrev EnvQ (Q : SK → Env → Prop) : Status × RS → Prop := fun r => Q r.1.kind r.2.env
+
+theorem AllRet.wrapAt {Q : SK → Env → Prop} {path : Bytes} {loc : Loc} {m : M Status} {s : RS}
+    (h : AllRet (EnvQ Q) (m s)) : AllRet (EnvQ Q) (wrapAt path loc m s) := by
+  unfold _root_.wrapAt
+  refine AllRet.bind (AllRet.mapFail _ h) (fun ⟨st, s'⟩ hr => .ret _ ?_)
+  simp only [EnvQ, Status.kind_wrap]
+  exact hr
+
+/-- `m` returns in exactly the state it started in -/
+def SameState {α} (m : M α) : Prop := ∀ s, AllRet (fun r : α × RS => r.2 = s) (m s)
+
+theorem sameState_bind {α β} {m : M α} {f : α → M β} (hm : SameState m) (hf : ∀ a, SameState (f a)) :
+    SameState (m >>= f) := by
+  intro s
+  refine AllRet.bind (hm s) (fun ⟨a, s1⟩ h1 => ?_)
+  simp only at h1
+  subst h1
+  exact hf a s1
+
+theorem sameState_pure {α} (a : α) : SameState (pure a : M α) := fun _ => .ret _ rfl
+theorem sameState_fail {α} (e : RawErr) : SameState (M.fail e : M α) := fun _ => .fail _
+theorem sameState_getEnv : SameState M.getEnv := fun _ => .ret _ rfl
+theorem sameState_getVar (x : Bytes) : SameState (M.getVar x) := fun _ => .ret _ rfl
+theorem sameState_ofRes {α} (r : Res Cause α) : SameState (M.ofRes r) := by
+  intro s
+  cases r with
+  | ok a => exact .ret _ rfl
+  | err c => exact .fail _
+  | panic w => exact .panic _
+  | unmodelled w => exact .unmodelled _
+theorem sameState_intModifier (P : Prims) (e : Option Expr) (loc : Loc) : SameState (intModifier P e loc) := by
+  unfold intModifier
+  cases e with
+  | none => exact sameState_pure _
+  | some ex =>
+    refine sameState_bind sameState_getEnv (fun env => sameState_bind (sameState_ofRes _) (fun v => ?_))
+    split
+    · exact sameState_pure _
+    · exact sameState_fail _
+
+/-- a loop node, reduced to what it does after its head (collection, items, offset, limit) has
+    been evaluated — which changes nothing: for every possible item list `items`, the dispatch on
+    it from the same state -/
+theorem loopRun_post (P : Prims) (path : Bytes) (loc : Loc) (tr : Bool) (var : Bytes) (e : Expr) (mods : LoopMods)
+    (bodyM : M Status) (elseM : Option (M Status)) (s : RS) (Q : SK → Env → Prop)
+    (h : ∀ items, AllRet (EnvQ Q) (loopDispatch P loc tr var mods.cols bodyM elseM items s)) :
+    AllRet (EnvQ Q) (loopRun P path loc tr var e mods bodyM false elseM s) := by
+  unfold loopRun
+  refine AllRet.wrapAt ?_
+  have hpre : SameState (do
+      let env ← M.getEnv
+      let v ← M.ofRes (evaluate P env e)
+      let items0 ← M.ofRes (loopItems v)
+      let off ← intModifier P mods.offset loc
+      let lim ← intModifier P mods.limit loc
+      pure (selectItems mods.reversed off lim items0) : M (List GoVal)) :=
+    sameState_bind sameState_getEnv (fun env => sameState_bind (sameState_ofRes _) (fun v =>
+      sameState_bind (sameState_ofRes _) (fun items0 => sameState_bind (sameState_intModifier _ _ _) (fun off =>
+      sameState_bind (sameState_intModifier _ _ _) (fun lim => sameState_pure _)))))
+  have hb := AllRet.bind (hpre s) (R := EnvQ Q)
+    (f := fun r => loopDispatch P loc tr var mods.cols bodyM elseM r.1 r.2)
+    (fun ⟨items, s1⟩ h1 => by simp only at h1; subst h1; exact h items)
+  simp only [bind, M.bind, Prog.bind_assoc, pure, M.pure, Prog.bind, Bool.false_eq_true, if_false] at hb ⊢
+  exact hb
+
+/-! ## Pre/post-conditions on the variables -/
+
+/-- from variables satisfying `I`, `m` returns with variables satisfying `J` -/
+def Tri {α} (I : Env → Prop) (m : M α) (J : Env → Prop) : Prop :=
+  ∀ s, I s.env → AllRet (fun r : α × RS => J r.2.env) (m s)
+
+theorem tri_bind {α β} {I K J : Env → Prop} {m : M α} {f : α → M β} (hm : Tri I m K) (hf : ∀ a, Tri K (f a) J) :
+    Tri I (m >>= f) J := by
+  intro s hs
+  exact AllRet.bind (hm s hs) (fun ⟨a, s1⟩ h1 => hf a s1 h1)
+
+theorem tri_of_presM {α} {I : Env → Prop} {m : M α} (h : PresM I m) : Tri I m I := h
+
+/-- a loop that visits at least one item: `I` before the loop, the body turns `I` into `J` and
+    keeps `J`; then `J` holds after the iterations and the restore -/
+theorem tri_iterate_cons (I J : Env → Prop) (var : Bytes) (cols : Option Nat) (body : M Status) (n : Nat)
+    (hI : ∀ env y w, (y = var ∨ y = nmForloop) → (I (env.set y w) ↔ I env))
+    (hJ : ∀ env y w, (y = var ∨ y = nmForloop) → (J (env.set y w) ↔ J env))
+    (hfirst : Tri I body J) (hnext : Tri J body J) (x : GoVal) (xs : List GoVal) (i : Nat) (cyc) :
+    Tri I (iterateM var cols body n (x :: xs) i cyc) J := by
+  unfold iterateM
+  have hset : ∀ y w, (y = var ∨ y = nmForloop) → Tri I (M.setVar y w) I :=
+    fun y w hy s hs => .ret _ ((hI s.env y w hy).mpr hs)
+  refine tri_bind (hset _ _ (.inl rfl)) (fun _ => tri_bind (hset _ _ (.inr rfl)) (fun _ => ?_))
+  refine tri_bind (K := I) ?_ (fun _ => tri_bind hfirst (fun st => tri_bind (K := J) ?_ (fun _ =>
+    tri_bind (tri_of_presM (presM_of_sameEnv (sameEnv_getVar _))) (fun cur => ?_))))
+  · cases cols with
+    | none => exact tri_of_presM (presM_pure I _)
+    | some c => exact tri_of_presM (presM_of_sameEnv (sameEnv_tablerowBefore c i))
+  · cases cols with
+    | none => exact tri_of_presM (presM_pure J _)
+    | some c => exact tri_of_presM (presM_of_sameEnv (sameEnv_tablerowAfter c i n))
+  · cases st with
+    | brk e => exact tri_of_presM (presM_pure J _)
+    | done => exact tri_of_presM (presM_iterate J var cols body n hJ hnext _ _ _)
+    | cont e => exact tri_of_presM (presM_iterate J var cols body n hJ hnext _ _ _)
+
+theorem tri_loopIterate_cons (I J : Env → Prop) (P : Prims) (loc : Loc) (tr : Bool) (var : Bytes) (colsE : Option Expr)
+    (bodyM : M Status)
+    (hI : ∀ env y w, (y = var ∨ y = nmForloop) → (I (env.set y w) ↔ I env))
+    (hJ : ∀ env y w, (y = var ∨ y = nmForloop) → (J (env.set y w) ↔ J env))
+    (hfirst : Tri I bodyM J) (hnext : Tri J bodyM J) (x : GoVal) (xs : List GoVal) :
+    Tri I (loopIterate P loc tr var colsE bodyM (x :: xs)) J := by
+  unfold loopIterate
+  have hset : ∀ y w, (y = var ∨ y = nmForloop) → Tri J (M.setVar y w) J :=
+    fun y w hy s hs => .ret _ ((hJ s.env y w hy).mpr hs)
+  refine tri_bind (tri_of_presM (presM_of_sameEnv (sameEnv_tablerowCols _ _ _ _))) (fun cols =>
+    tri_bind (tri_of_presM (presM_of_sameEnv (sameEnv_getVar _))) (fun pl =>
+    tri_bind (tri_of_presM (presM_of_sameEnv (sameEnv_getVar _))) (fun pv =>
+    tri_bind (tri_iterate_cons I J var cols bodyM _ hI hJ hfirst hnext x xs _ _) (fun st =>
+    tri_bind (K := J) ?_ (fun _ => tri_of_presM (presM_pure J _))))))
+  unfold restoreLoopVars
+  exact tri_bind (hset _ _ (.inr rfl)) (fun _ => hset _ _ (.inl rfl))
